@@ -26,6 +26,7 @@ MODEL_SWITCHES = [
     ("MC_Conc4", "MC_Conc4_bug6.cfg", "ScanOK", "F17: scan returns a key twice after unlink + re-insert"),
     ("MC_Conc4", "MC_Conc4_bug7.cfg", "ScanOK", "cursor keeps its rank when the permutation of its border changed"),
     ("MC_Conc4", "MC_Conc4_bug8.cfg", "ScanOK", "right-to-left scan starting from a fresh version instead of the one of the validated descent (seeds C04b / C04c)"),
+    ("MC_Conc4", "MC_Conc4_bug9.cfg", "Termination", "seed C09d: the new border's parent pointer is stored after the parent was unlocked (lock_parent of its remover spins on the root lock)"),
     ("MC_Conc6", "MC_Conc6_bug1.cfg", "ParentOK", "lock_parent without the re-check of the parent after locking"),
     ("MC_Conc6", "MC_Conc6_bug2.cfg", "LinOK", "interior split without the splitting mark"),
     ("MC_Conc7", "MC_Conc7_bug1.cfg", "LinOK", "get_child_of accepts a deleted child: descent through a collapsed interior (seed C08d)"),
